@@ -4,6 +4,6 @@ fn main() {
     ecverif::microrun::main_for(
         ecverif::microrun::Profile { key: "c01d", drops: true, timeouts: false, tx_fail: false, rx_noise: true, only: &[] },
         300,
-        4000,
+        2000,
     );
 }
